@@ -96,6 +96,23 @@ func VPrefixAdmits(op pAst.PrefixOperator, k TypeKind) bool {
 	return false
 }
 
+// Printing (C19): a printer that assembles its output from one part per
+// child must produce a part for every child.
+
+func b2n(b bool) int {
+	if b {
+		return 1
+	}
+	return 0
+}
+
+/*@ func (self AnalyzedMatchExpression) String
+    serves C19, C20
+    assume-safety
+    assert @every-arm-printed before return fmt.Sprintf("match %s :: len(arms) == len(self.Arms)+b2n(self.DefaultArmAction != nil)
+    loop 1 invariant len(arms) == rangeindex()
+@*/
+
 // BEGIN GENERATED members (tools/gen_member_contracts.py; edit the table there)
 
 // VMemberOf: the members the language offers on the values of a type (the
